@@ -8,7 +8,7 @@
    Part C: the cache invariant over histories.   Part D: the theorems. *)
 From Crusta Require Import Model.Dynamic Spec.SemFacts Spec.Invariance Proofs.ProgLaws Proofs.StoreBase Proofs.StoreProofs
   Proofs.EncBase Proofs.SolverBasics Proofs.DynDefs Proofs.DynBase Proofs.DynProofs Proofs.DynEnc Proofs.DynSafe
-  Proofs.DynStore Proofs.DynFunDefs Proofs.DynInv Proofs.CompProofs.
+  Proofs.DynStore Proofs.DynFunDefs Proofs.DynInv Proofs.CompProofs Proofs.TopMax.
 From Coq Require Import Lia ZifyBool.
 
 Section DynFun.
@@ -828,6 +828,105 @@ Proof.
         -- split; [discriminate|]. intros Hsk. destruct (Hsk _ K1) as (a & [<-|[]] & Ha). contradiction.
         -- auto 7.
       * destruct Hans as (refused & _ & ->). split; cbn [fst snd]; [|reflexivity]. split; [intros _; exact Hda|reflexivity].
+Qed.
+
+(* ================================================================ Part E: corollaries *)
+(* the same, in the vocabulary of the static solver theorems (Proofs/TopMax.v: acc_spec) *)
+Corollary dyn_functional_acc_spec oracle thr k s ps os fuel q cert l id s' b c ps' :
+  valid_oracle oracle -> vreach oracle thr k s ps os ->
+  (k = KCo /\ q = QDC) \/ (k = KSt /\ (q = QDC \/ q = QDS)) ->
+  get_argument (run_ops fresh os) l = Some id ->
+  dyn_query oracle L leqb thr fuel s q cert l ps = Done (s', (b, c)) ps' ->
+  acc_spec (sem_of k) (qpol q) cert (af_of (run_ops fresh os)) [id] (b, c).
+Proof.
+  intros Hvalid Hv Hkq Hl Hq.
+  destruct (dyn_functional oracle thr k s ps os fuel q cert l id s' b c ps' Hvalid Hv Hkq Hl Hq) as [H1 H2].
+  split; [exact H1|]. cbn [fst snd] in *. destruct c as [X|]; [|exact H2].
+  destruct H2 as (K1 & K2 & K3 & K4 & K5 & K6). repeat (split; [assumption|]).
+  destruct (qpol q).
+  - exists id. split; [left; reflexivity|exact K6].
+  - intros a [<-|[]]. exact K6.
+Qed.
+
+(* "earlier queries, cached results and retired SAT variables never influence a later answer": the
+   status is a function of the specification store alone - two histories (whatever their queries,
+   oracles, thresholds, fuels, certificate flags) that lead to the same abstract framework give the
+   same status for the same argument *)
+Corollary dyn_status_history_independent
+  oracle1 oracle2 thr1 thr2 k s1 s2 ps1 ps2 os1 os2 fuel1 fuel2 q cert1 cert2 l1 l2 id s1' s2' b1 b2 c1 c2 ps1' ps2' :
+  valid_oracle oracle1 -> valid_oracle oracle2 ->
+  vreach oracle1 thr1 k s1 ps1 os1 -> vreach oracle2 thr2 k s2 ps2 os2 ->
+  (k = KCo /\ q = QDC) \/ (k = KSt /\ (q = QDC \/ q = QDS)) ->
+  af_equiv (af_of (run_ops fresh os1)) (af_of (run_ops fresh os2)) ->
+  get_argument (run_ops fresh os1) l1 = Some id -> get_argument (run_ops fresh os2) l2 = Some id ->
+  dyn_query oracle1 L leqb thr1 fuel1 s1 q cert1 l1 ps1 = Done (s1', (b1, c1)) ps1' ->
+  dyn_query oracle2 L leqb thr2 fuel2 s2 q cert2 l2 ps2 = Done (s2', (b2, c2)) ps2' ->
+  b1 = b2.
+Proof.
+  intros Hv1 Hv2 Hr1 Hr2 Hkq Heq Hl1 Hl2 Hq1 Hq2.
+  destruct (dyn_functional _ _ _ _ _ _ _ _ _ _ _ _ _ _ _ Hv1 Hr1 Hkq Hl1 Hq1) as [A1 _].
+  destruct (dyn_functional _ _ _ _ _ _ _ _ _ _ _ _ _ _ _ Hv2 Hr2 Hkq Hl2 Hq2) as [A2 _].
+  cbn [fst] in A1, A2.
+  assert (E : b1 = true <-> b2 = true).
+  { rewrite A1, A2. destruct (qpol q); [apply cred_af_equiv|apply skep_af_equiv]; exact Heq. }
+  destruct b1, b2; try reflexivity; [symmetry|]; apply E; reflexivity.
+Qed.
+
+(* ---- C09: redundant and rejected updates are invisible in every later answer *)
+Lemma step_noop (f : fw) (o : op L) : Inv f -> classify L leqb (abs L f) o <> UValid -> fst (step L leqb f o) = f.
+Proof.
+  intros Hinv Hc. pose proof (s_step_classes L leqb (abs L f) o) as Hs.
+  destruct (step_ok L leqb leqb_spec f o Hinv) as (_ & Hres & _).
+  destruct (classify L leqb (abs L f) o) eqn:Ec; [congruence| |].
+  - (* redundant *)
+    destruct o as [l|l|a b|a b]; cbn [classify] in Ec; cbn [Store.step fst].
+    + destruct (s_find L leqb (abs L f) l) as [id|] eqn:Ef; [|discriminate].
+      apply (new_argument_existing L leqb f l id). unfold Store.get_argument.
+      rewrite (find_label_sfind L leqb f l Hinv). exact Ef.
+    + destruct (s_find L leqb (abs L f) l); discriminate.
+    + destruct (s_find L leqb (abs L f) a) as [x|] eqn:Ea; [|discriminate].
+      destruct (s_find L leqb (abs L f) b) as [y|] eqn:Eb; [|discriminate].
+      destruct (s_has_att L (abs L f) (x, y)) eqn:Eh; [|discriminate].
+      unfold Store.new_attack. rewrite !(find_label_sfind L leqb f _ Hinv), Ea, Eb.
+      rewrite (has_att_spec L f x y Hinv), Eh. reflexivity.
+    + destruct (s_find L leqb (abs L f) a); [|discriminate]. destruct (s_find L leqb (abs L f) b); [|discriminate].
+      destruct (s_has_att L (abs L f) _); discriminate.
+  - (* invalid *)
+    apply step_not_ok_unchanged. rewrite Hres, Hs. cbn [snd]. discriminate.
+Qed.
+
+Lemma run_ops_effective os : forall f : fw, Inv f -> run_ops f (effective L leqb f os) = run_ops f os.
+Proof.
+  induction os as [|o r IH]; intros f Hinv; cbn [effective]; [reflexivity|].
+  unfold Store.run_ops at 2. cbn [fold_left]. fold (run_ops (fst (step L leqb f o)) r).
+  destruct (classify L leqb (abs L f) o) eqn:Ec.
+  - unfold Store.run_ops at 1. cbn [fold_left]. fold (run_ops (fst (step L leqb f o)) (effective L leqb (fst (step L leqb f o)) r)).
+    apply IH. apply (step_ok L leqb leqb_spec f o Hinv).
+  - rewrite (step_noop f o Hinv) by congruence. apply IH, Hinv.
+  - rewrite (step_noop f o Hinv) by congruence. apply IH, Hinv.
+Qed.
+
+(* every answer is the one the semantics dictate for the framework built by the VALID updates only *)
+Corollary dyn_functional_effective oracle thr k s ps os fuel q cert l s' b c ps' :
+  valid_oracle oracle -> vreach oracle thr k s ps os ->
+  (k = KCo /\ q = QDC) \/ (k = KSt /\ (q = QDC \/ q = QDS)) ->
+  let f := run_ops fresh (effective L leqb fresh os) in
+  forall id, get_argument f l = Some id ->
+  dyn_query oracle L leqb thr fuel s q cert l ps = Done (s', (b, c)) ps' ->
+  answer_ok (sem_of k) (qpol q) cert (af_of f) id (b, c).
+Proof.
+  intros Hvalid Hv Hkq f id. unfold f.
+  rewrite (run_ops_effective os fresh (init_inv L leqb leqb_spec [])).
+  apply dyn_functional; assumption.
+Qed.
+
+(* a redundant or rejected update anywhere in a history changes no later store, hence no later answer *)
+Corollary noop_update_invisible os o os' :
+  classify L leqb (abs L (run_ops fresh os)) o <> UValid ->
+  run_ops fresh (os ++ o :: os') = run_ops fresh (os ++ os').
+Proof.
+  intros Hc. unfold Store.run_ops. rewrite !fold_left_app. cbn [fold_left]. fold (run_ops fresh os).
+  rewrite (step_noop (run_ops fresh os) o (fresh_inv L leqb leqb_spec os) Hc). reflexivity.
 Qed.
 
 End DynFun.
